@@ -171,6 +171,41 @@ def rel(body, op, a_rx, b_rx, pure=True):
     return out
 
 
+def for_loops(body):
+    """`for` loops of a body: (next-call at the loop head, root of the iterated expression)."""
+    out = []
+    for c in body.calls:
+        if c.matches(r"Iterator>?::next$") and c.macros and c.macros[0] == "desugar:ForLoop":
+            root = body.root(c.args[0])
+            # the user's name of the iterated variable, when it is one (`for x in removed_txs`)
+            names = []
+            for ii in body.calls:
+                if ii.matches(r"IntoIterator>?::into_iter$") and ii.macros and \
+                        ii.macros[0] == "desugar:ForLoop" and \
+                        f"into_iter({body.root(ii.args[0])})" == root:
+                    for l in body.move_chain(ii.args[0]):
+                        n = body.dbg_name(str(l))
+                        if n:
+                            names.append(n)
+            out.append((c, root + ("|" + ",".join(names) if names else "")))
+    return out
+
+
+def loop_leaves_early(body, head):
+    """True iff the `for` loop whose head is the call `head` (Iterator::next) can be left other
+    than by exhausting the iterator: some path from the loop body reaches a function exit
+    without coming back to the head (`break`, `return`, `?`)."""
+    oe = body.outcome_edges(head)
+    some = oe.get("ok") or []
+    if not some:
+        return None
+    rets = set(body.return_blocks())
+    for (u, v) in some:
+        if rets & body.reachable(v, removed_blocks=[head.bb]):
+            return True
+    return False
+
+
 def must_be_equal(body, a_rx, b_rx, target_bb):
     """True iff every path to `target_bb` has established `a == b`, in any of the spellings
     `a == b` / `!(a != b)`, `match a.cmp(&b) { Equal => .. }`, or the pair `!(a < b)` and
